@@ -521,7 +521,7 @@ func requestIntSource(v ssa.Value) (string, bool) {
 		if protoPkgs[n.Obj().Pkg().Path()] {
 			return n.Obj().Name() + "." + f, true
 		}
-		if n.Obj().Pkg().Path() == core.PkgGcsemu && n.Obj().Name() == "byteRange" {
+		if n.Obj().Pkg().Path() == core.PkgGcsemu && core.TName(n) == "byteRange" {
 			return "byteRange." + f, true
 		}
 	case *ssa.Extract:
